@@ -77,6 +77,18 @@ CHECKS = [
         "text": "Every model-built value of every type of the grammar is serialized under settings.serialization.exclude_defaults x exclude_none (global) x 3 aliasers x additional_properties and validated by jsonschema against serialization_schema generated under the same settings.",
         "note": "exclude_unset=False (no field dropped by unset-tracking, as the property requires). Same known findings as C06 for flattened objects.",
     },
+    {
+        "id": "C17", "engine": "E1", "design_ref": "DESIGN.md §5 C17",
+        "technique": "bounded exhaustive enumeration of (type, all_refs, ref_factory, version, with_schema, entry point) with meta-schema validation, $ref closure walk and a reference-count model over the type term",
+        "text": "For every type of the grammar and 8 source worlds (type_name string / factory / None, NewType and Annotated names, recursion, name clash, nameless recursion) x all_refs x {default, prefix} ref_factory x 5 versions x with_schema x {deserialization, serialization}: generation terminates (watchdog), the document validates against the meta-schema of the dialect it declares, every $ref (and discriminator mapping target) resolves to a definition (inline or definitions_schema), the set of definitions equals the set predicted by a reference-count model on the type term, definitions_schema equals the inline $defs, clashes / nameless recursion are refused.",
+        "note": "Trusted: jsonschema meta-schemas. Unreferenced definitions under all_refs=True are counted, not flagged (the property does not forbid them). Nested flattened types skipped (known finding of C06).",
+    },
+    {
+        "id": "C18", "engine": "E1", "design_ref": "DESIGN.md §5 C18",
+        "technique": "bounded exhaustive enumeration of (type, target dialect, datum) with the validators of each dialect as oracles + exhaustive vocabulary walk of every converted schema",
+        "text": "For every type of the grammar, both schema functions and the four target versions: the converted schema validated by the target dialect's own validator (Draft201909 / Draft7; OpenAPI 3.0 through its documented mapping; $refs against definitions_schema of the same version) accepts exactly the data (<=1 deviation enumeration) the 2020-12 schema accepts; a recursive walk finds no keyword outside the target vocabulary and only the target reference prefix, at any depth and in the definitions.",
+        "note": "Known findings: unevaluatedProperties in draft-07 (flattened objects), {'type': 'null'} in OpenAPI 3.0 for a None-typed position.",
+    },
 ]
 _PENDING = "check not built yet in this round (planned, see DESIGN.md §5); not claimed until it runs green"
-NOT_APPLICABLE = [{"property_id": f"C{i:02d}", "reason": _PENDING} for i in range(4, 20) if i not in (4, 5, 6, 7, 8, 9, 13, 14, 15)]
+NOT_APPLICABLE = [{"property_id": f"C{i:02d}", "reason": _PENDING} for i in range(4, 20) if i not in (4, 5, 6, 7, 8, 9, 13, 14, 15, 17, 18)]
